@@ -491,18 +491,25 @@ impl FileSystem for OverlayFs {
 
         match data.real_handle {
             None => Err(Error::from_raw_os_error(libc::ENOENT)),
-            Some(ref hd) => hd.layer.write(
-                ctx,
-                hd.inode,
-                hd.handle.load(Ordering::Relaxed),
-                r,
-                size,
-                offset,
-                lock_owner,
-                delayed_write,
-                flags,
-                fuse_flags,
-            ),
+            Some(ref hd) => {
+                // A handle that lives in a lower layer was not opened for writing (that would have
+                // copied the file up): never hand a write to a lower layer.
+                if !hd.in_upper_layer {
+                    return Err(Error::from_raw_os_error(libc::EBADF));
+                }
+                hd.layer.write(
+                    ctx,
+                    hd.inode,
+                    hd.handle.load(Ordering::Relaxed),
+                    r,
+                    size,
+                    offset,
+                    lock_owner,
+                    delayed_write,
+                    flags,
+                    fuse_flags,
+                )
+            }
         }
     }
 
